@@ -486,7 +486,7 @@ def resolveTail (o : Oracle) (upg : Bool) (self : Pkg) (lock1 : List Pkg) (d : D
 whose meta dependencies are all well-formed (`self.deps`). The client calls cannot fail here
 (the property quantifies over inputs, not faults).
 
-`reinit = true` is the code with fixes/D12.diff: after RemoveSelf + re-reading the lock the
+`reinit = true` is the code with fixes/D21.diff: after RemoveSelf + re-reading the lock the
 DAG is rebuilt from the refreshed lock. `reinit = false` is the code before that repair, which
 kept the DAG (and the implied list) built from the lock *before* the removal. -/
 def resolveG (reinit : Bool) (o : Oracle) (upg : Bool) (lock : List Pkg) (self : Pkg) : ResOut :=
@@ -499,7 +499,7 @@ def resolveG (reinit : Bool) (o : Oracle) (upg : Bool) (lock : List Pkg) (self :
     | .error _ => ⟨self.deps.length, 0, 0, .initDag, lock1⟩
     | .ok (d, implied) => resolveTail o upg self lock1 d implied
 
-/-- Resolve as repaired by fixes/D12.diff -/
+/-- Resolve as repaired by fixes/D21.diff -/
 def resolve (o : Oracle) (upg : Bool) (lock : List Pkg) (self : Pkg) : ResOut := resolveG true o upg lock self
 
 /-! ## Lock reconciler (resolver/reconciler.go), decision skeleton -/
